@@ -161,7 +161,7 @@ func TestE2E(t *testing.T) {
 					o := bgOps[g.intn(len(bgOps))]
 					kind := "err"
 					if o.Op == "get" {
-						kind = g.pick("err", "err", "garbage", "trunc")
+						kind = g.pick("err", "err", "garbage", "trunc", fmt.Sprintf("json%d", g.intn(64)))
 					}
 					fc.Faults = append(fc.Faults, FaultSpec{N: o.N, Kind: kind})
 				}
@@ -171,7 +171,7 @@ func TestE2E(t *testing.T) {
 				}
 				maxN := len(ops) + 2
 				for j := 0; j < nf; j++ {
-					fc.Faults = append(fc.Faults, FaultSpec{N: g.intn(maxN), Kind: g.pick("err", "err", "garbage", "null", "trunc")})
+					fc.Faults = append(fc.Faults, FaultSpec{N: g.intn(maxN), Kind: g.pick("err", "err", "garbage", "null", "trunc", fmt.Sprintf("json%d", g.intn(64)))})
 				}
 				_ = os.WriteFile(current, []byte(fc.Encode()), 0o644)
 				cases = append(cases, fc.Encode())
